@@ -384,9 +384,13 @@ def bits_to_target(bits):
     # last byte is exponent
     exponent = bits[-1]
     # the first three bytes are the coefficient in little endian
-    coefficient = little_endian_to_int(bits[:-1])
+    # (the top bit of the third byte is the sign of the compact format, not part of the value)
+    coefficient = little_endian_to_int(bits[:-1]) & 0x7FFFFF
     # the formula is:
     # coefficient * 256**(exponent-3)
+    if exponent < 3:
+        # a negative power would give a float: shift the coefficient down instead
+        return coefficient >> (8 * (3 - exponent))
     return coefficient * 256 ** (exponent - 3)
 
 
